@@ -83,6 +83,12 @@ def reqDesc (me : String) : Req → String × String × String × String × Stri
   | .patchXR n _ _ => ("patch", "xr", n, "", "merge")
   | .applyXR n _ => ("patch", "xr", n, "", "apply")
 
+/-- which of Upgrade's two JSON patches a request is ("" for every other request) -/
+def reqOp : Req → String
+  | .upgradeXR _ _ .clear => "clear"
+  | .upgradeXR _ _ (.removeAt i) => "remove:" ++ toString i
+  | _ => ""
+
 /-- `ostr` = the fault plan entry of the scenario for this call ("ok" if none) -/
 def callJson (me : String) (ostr : String) (c : CallRec) : Json :=
   let (verb, obj, name, sub, pt) := reqDesc me c.req
@@ -94,6 +100,7 @@ def callJson (me : String) (ostr : String) (c : CallRec) : Json :=
   let took := match c.outcome with | .ok | .crashAfter | .lost _ => true | _ => false
   let applied := c.req.isWrite && !isErr && took
   Json.mkObj [("verb", .str verb), ("obj", .str obj), ("name", .str name), ("sub", .str sub), ("pt", .str pt),
+    ("op", .str (reqOp c.req)),
     ("outcome", .str ostr), ("err", .str err), ("applied", .bool applied)]
 
 def claimJson (s : St) : Json :=
@@ -101,10 +108,14 @@ def claimJson (s : St) : Json :=
   | some c => Json.mkObj [("exists", .bool true), ("ref", .str (xrefStr c.ref)), ("fin", .bool c.fin), ("deleting", .bool c.deleting)]
   | none => Json.mkObj [("exists", .bool false), ("ref", .str ""), ("fin", .bool false), ("deleting", .bool false)]
 
-def xrsJson (s : St) (names : List Name) : Json :=
+/-- managed fields are compared in the server-side wiring only (the client-side one has the Nop upgrader and
+never reads them; whether a client-side merge patch that changes nothing records its manager is not modelled) -/
+def mfObs (ssa : Bool) (x : XR) : List String := if ssa then x.mf else []
+
+def xrsJson (ssa : Bool) (s : St) (names : List Name) : Json :=
   Json.arr (names.filterMap fun n => (s.xrs n).map fun x =>
     Json.mkObj [("name", .str n), ("ref", .str (crefStr x.cref x.crefUid)), ("lbl", .str (lblStr x.lbl)), ("fin", .bool x.fin),
-      ("deleting", .bool x.deleting), ("status", .bool x.status)]).toArray
+      ("deleting", .bool x.deleting), ("status", .bool x.status), ("mf", Json.arr ((mfObs ssa x).map Json.str).toArray)]).toArray
 
 def dedupSorted (l : List String) : List String :=
   (l.mergeSort (· ≤ ·)).eraseDups
@@ -152,7 +163,7 @@ def handler : Handler := fun scn =>
       else match r with
         | some r => if r.name != meRef.name || r.ns != meRef.ns then some (r.name, r.ns) else none
         | none => none
-    (str j "name", (⟨2, r, bool (obj j "ref") "uid", lbl, bool j "fin", bool j "deleting", bool j "status", 0⟩ : XR))
+    (str j "name", (⟨2, r, bool (obj j "ref") "uid", lbl, bool j "fin", bool j "deleting", bool j "status", 0, strs j "mgrs"⟩ : XR))
   let s0 : St := { me := meRef, claim := some claim0, hist := [claim0], xrs := fun n => xrs0.lookup n, xhist := fun n => [xrs0.lookup n],
                    nextRv := 10, trace := [], peers := !sides.isEmpty, others := sides }
   let recs := arr scn "recs"
@@ -182,7 +193,6 @@ def handler : Handler := fun scn =>
         | some i => (some (i + 1), bad)
         | none => (none, bad.or (some "the cache served a stale claim version the model's history does not contain"))
       else (none, bad)
-    let up : Option Bool := match str rj "up" with | "ok" => some true | "invalid" => some false | _ => none
     -- XR reads in order of occurrence: with a reference, the Get of Reconcile (site 0) and the Get of the
     -- client-side Apply (site 1); without, the availability Gets of the drawn names (sites 2..), then site 1
     let nNames := (strs rj "names").length
@@ -193,9 +203,9 @@ def handler : Handler := fun scn =>
       if bool xj "stale" then
         let p : Option XR → Bool :=
           if bool xj "found" then
-            let want := (str xj "ref", str xj "lbl", bool xj "fin", bool xj "deleting", bool xj "status", nat xj "gen")
+            let want := (str xj "ref", str xj "lbl", bool xj "fin", bool xj "deleting", bool xj "status", nat xj "gen", strs xj "mf")
             fun ox => match ox with
-              | some x => (crefStr x.cref x.crefUid, lblStr x.lbl, x.fin, x.deleting, x.status, x.gen) == want
+              | some x => (crefStr x.cref x.crefUid, lblStr x.lbl, x.fin, x.deleting, x.status, x.gen, mfObs ssa x) == want
               | none => false
           else fun ox => ox.isNone
         -- the older state with that content in the right incarnation of the name (exactly `absAfter`
@@ -210,11 +220,11 @@ def handler : Handler := fun scn =>
             else go rest (cnt + (if e.isNone then 1 else 0)) dup
         some (siteOf occ, fun older => go older 0 0)
       else none)
-    let cfg : Cfg := { ssa := ssa, xrt := xrtOf (str rj "xrv"), pick := pick, xpick := fun site => xsel.lookup site, cands := strs rj "names", up := up }
+    let cfg : Cfg := { ssa := ssa, xrt := xrtOf (str rj "xrv"), pick := pick, xpick := fun site => xsel.lookup site, cands := strs rj "names" }
     let (s', calls, res) := runRec plan envAt 0 (reconcile cfg) s
     let resStr := match res with | some .ok => "ok" | some .requeue => "requeue" | some .err => "err" | none => "crashed"
     let o := Json.mkObj [("calls", Json.arr (calls.zipIdx.map fun (c, k) => callJson meStr (ostrAt k) c).toArray), ("res", .str resStr),
-      ("claim", claimJson s'), ("xrs", xrsJson s' names)]
+      ("claim", claimJson s'), ("xrs", xrsJson ssa s' names)]
     let s' := if w == 0 then s' else swap s' (w - 1)
     (s', outs ++ [o], bad)
   let (sf, outs, bad) := recs.foldl step (s0, [], none)
